@@ -76,6 +76,7 @@ def spec_of(cfg):
     L = cfg['L']
     s = [('economics.totalcapcost', 'real', 0, 1000), ('economics.oamtotalfixed', 'real', 0, 100),
          ('economics.TotalGrant', 'real', -1000, 1000), ('economics.FixedInternalRate', 'real', 0, 100),
+         ('economics.inflrateconstruction', 'real', 0, 0.5),      # financing during construction belongs to the levelized cost, not to the cash-flow series
          ('economics.discount_initial_year_cashflow', 'bool', None, None)]
     if cfg.get('addon'):
         # the pricing clamps and grants are explored in the configurations without add-ons: here one symbolic flat price per product
@@ -331,6 +332,7 @@ def units(tier, seed):
     shown = c09.CONFIGS[tier][:3] if tier == 'quick' else c09.CONFIGS[tier][:12]
     from . import c03     # closed-loop family: SBTEconomics.Calculate carries its own copy of the cash-flow code
     us.append({k: v for k, v in c03.sbt_cfg({}).items() if k != 'flags'})
+    us.append({k: v for k, v in c03.sbt_cfg({}, K=2).items() if k != 'flags'})
     us += [{'harness': 'payback-display', 'kind': k, 'L': L, 'T': T, 'K': K, 'variant': x} for (k, L, T, K, x) in shown]
     return us
 
